@@ -6,7 +6,7 @@ import AwsVerif.Model.Lookup3
 ```
 hash k7 ffffffffffffffff        user hash of ident 7 (default 0)
 init t0 8 kv|k|v|-              aws_hash_table_init, which destructors are installed
-put t0 k7.p1 v3 | create t0 k7.p0 | find t0 k7.p0 | remove t0 k7.p0 out|noout | remel t0 k7.p0
+put t0 k7.p1 v3 | create t0 k7.p0 | putn / createn t0 k e|c|- / removen t0 k out|noout (optional out-parameters NULL) | find t0 k7.p0 | remove t0 k7.p0 out|noout | remel t0 k7.p0
 clear t0 | cleanup t0 | swap t0 t1 | move t1 t0 | eq t0 t1 | eqm t0 t1 (value_eq = equal mod 8) | count t0
 iter_begin t0 i0 | iter_next i0 | iter_done i0 | iter_delete i0 destroy|keep
 foreach t0 k1:3 k2:0 ...        callback flag word per ident (default 1 = CONTINUE; 2 = DELETE, 4 = ERROR)
@@ -276,6 +276,37 @@ def stepTable (s : St) (t : List String) : St × List String :=
         | .error e => (s.stale n, ["P put " ++ showErr e])
         | .ok r => ((s.setTab n (some r.table)).stale n,
             [s!"P put OK created={if r.created then 1 else 0}"] ++ logLines r.log ++ stateLines n (some r.table))
+    | _, _ => bad s
+  | ["putn", n, k, v] => match parseKey? k, parseVal? v with
+    | some k, some v => match s.tab n with
+      | none => (s, ["P nil"])
+      | some tb => match put s.h tb k v with
+        | .error e => (s.stale n, ["P putn " ++ showErr e])
+        | .ok r => ((s.setTab n (some r.table)).stale n, ["P putn OK"] ++ logLines r.log ++ stateLines n (some r.table))
+    | _, _ => bad s
+  | ["createn", n, k, mode] => match parseKey? k with
+    | some k =>
+      if mode != "e" && mode != "c" && mode != "-" then bad s else
+      match s.tab n with
+      | none => (s, ["P nil"])
+      | some tb => match create s.h tb k with
+        | .error e => (s.stale n, ["P createn " ++ showErr e])
+        | .ok r =>
+          let el := if mode == "e" then (match rd r.table.slots r.idx with | some e => showKV (e.key, e.val) | none => "-") else "-"
+          let cr := if mode == "c" then (if r.created then "1" else "0") else "?"
+          ((s.setTab n (some r.table)).stale n, [s!"P createn OK created={cr} {el}"] ++ stateLines n (some r.table))
+    | none => bad s
+  | ["removen", n, k, o] => match parseKey? k, (if o == "out" then some true else if o == "noout" then some false else none) with
+    | some k, some o => match s.tab n with
+      | none => (s, ["P nil"])
+      | some tb => match remove s.h tb k o with
+        | .error e => (s.stale n, ["P removen " ++ showErr e])
+        | .ok r =>
+          let shown := match r.out with
+            | some (.null, none) => "-"       -- a zeroed struct: the harness cannot tell it from "absent"
+            | some kv => showKV kv
+            | none => "-"
+          ((s.setTab n (some r.table)).stale n, ["P removen " ++ shown] ++ logLines r.log ++ stateLines n (some r.table))
     | _, _ => bad s
   | ["create", n, k] => match parseKey? k with
     | some k => match s.tab n with
